@@ -398,7 +398,7 @@ def gen_bitmap_pipeline_history(seed, idx):
         return gen.flag_args(o) + sorted(state["content"])
 
     def step():
-        k = r.choice(["flags", "flags", "flags", "zopfli", "content", "content", "pngquant", "res"])
+        k = r.choice(["flags", "flags", "flags", "zopfli", "zopfli", "zopfli", "content", "content", "pngquant", "res"])
         if k == "flags":
             state["flags"] = r.choice([f for f in FLAGS if f != state["flags"]])
         elif k == "zopfli":
